@@ -376,8 +376,11 @@ impl<C: Config> Engine<C> {
             return Ok(true);
         };
 
-        let is_in_scc =
-            self.check_cyclic(&running_state, &query_caller.query_id());
+        let is_in_scc = self.check_cyclic(
+            callee,
+            &running_state,
+            &query_caller.query_id(),
+        );
 
         // mark the caller as being in scc
         if is_in_scc {
@@ -392,53 +395,90 @@ impl<C: Config> Engine<C> {
         Ok(false)
     }
 
-    /// Checks whether the stack of computing queries contains a cycle
-    #[allow(clippy::needless_pass_by_value)]
-    fn check_cyclic_internal(
-        &self,
-        computing: &QueryComputing,
-        target: &QueryID,
-    ) -> bool {
-        if computing.callee_info.callee_queries.contains_sync(target) {
-            computing
-                .is_in_scc
-                .store(true, std::sync::atomic::Ordering::SeqCst);
-
-            return true;
-        }
-
-        let mut found = false;
-
-        // OPTIMIZE: this can be parallelized
-        computing.callee_info.callee_queries.iter_sync(|k, _| {
-            let Some(state) =
-                self.computation_graph.computing.try_get_query_computing(k)
-            else {
-                return true;
-            };
-
-            found |= self.check_cyclic_internal(&state, target);
-
-            true
-        });
-
-        if found {
-            computing
-                .is_in_scc
-                .store(true, std::sync::atomic::Ordering::SeqCst);
-        }
-
-        found
-    }
-
-    /// Checks whether the stack of computing queries contains a cycle
-    #[allow(clippy::needless_pass_by_value)]
+    /// Checks whether the computing queries reachable from `callee` (through
+    /// the callees they have registered so far) lead back to `target`, i.e.
+    /// whether `target` calling `callee` closes a dependency cycle.
+    ///
+    /// Every computing query that lies on such a path is marked as being part
+    /// of the strongly connected component.
+    ///
+    /// The search keeps a visited set: the computing queries may already
+    /// contain a cycle that does not involve `target` (e.g. a cycle that
+    /// another task is currently unwinding), which must not make the search
+    /// run forever.
     pub(super) fn check_cyclic(
         &self,
-        running_state: &QueryComputing,
+        callee: &QueryID,
+        running_state: &Arc<QueryComputing>,
         target: &QueryID,
     ) -> bool {
-        self.check_cyclic_internal(running_state, target)
+        // the computing queries reachable from the callee
+        let mut reachable = vec![(*callee, running_state.clone())];
+        let mut seen = std::collections::HashSet::<QueryID>::new();
+        seen.insert(*callee);
+
+        let mut index = 0;
+        while index < reachable.len() {
+            let state = reachable[index].1.clone();
+            let mut callees = Vec::new();
+
+            state.callee_info.callee_queries.iter_sync(|k, _| {
+                callees.push(*k);
+                true
+            });
+
+            for k in callees {
+                if !seen.insert(k) {
+                    continue;
+                }
+
+                if let Some(state) =
+                    self.computation_graph.computing.try_get_query_computing(&k)
+                {
+                    reachable.push((k, state));
+                }
+            }
+
+            index += 1;
+        }
+
+        // those of them from which the target can be reached
+        let mut in_scc = std::collections::HashSet::<QueryID>::new();
+
+        loop {
+            let mut changed = false;
+
+            for (id, state) in &reachable {
+                if in_scc.contains(id) {
+                    continue;
+                }
+
+                let mut reaches_target =
+                    state.callee_info.callee_queries.contains_sync(target);
+
+                if !reaches_target {
+                    state.callee_info.callee_queries.iter_sync(|k, _| {
+                        if in_scc.contains(k) {
+                            reaches_target = true;
+                        }
+
+                        !reaches_target
+                    });
+                }
+
+                if reaches_target {
+                    state.mark_scc();
+                    in_scc.insert(*id);
+                    changed = true;
+                }
+            }
+
+            if !changed {
+                break;
+            }
+        }
+
+        in_scc.contains(callee)
     }
 
     pub(super) fn is_query_running_in_scc(
